@@ -366,6 +366,11 @@ class ExprParser:
             for want in (".", "contains", "(", "reg", ")"):
                 self.take(want)
             return ("bvar", "bool", "$contains")
+        if tok == "get" and self.recv == "$size":
+            # MinidumpContext::register_size: `get(ctx)` = std::mem::size_of::<T::Register>() (usize, 64 bits here)
+            for want in ("(", "ctx", ")"):
+                self.take(want)
+            return ("var", 64, "$size")
         if tok == self.recv:
             self.take(".")
             field = self.take()
@@ -377,6 +382,9 @@ class ExprParser:
                 # the forwarded CpuContext call, as a variable of the context's Register type
                 for want in ("(", "reg", ")"):
                     self.take(want)
+                if self.ctx is None:
+                    # MinidumpContext's own (type-erased, u64) get_register_always
+                    return ("var", 64, "$mga")
                 return ("var", self.tr.widths[self.ctx], "$ga")
             if field == "register_is_valid" and self.peek() == "(":
                 # dispatch arms pass `&self.valid`, the trait's own get_register passes its `valid` parameter
@@ -696,8 +704,7 @@ class Tr:
                 if default_seen:
                     die(w + " memoize_register: arm after `_`")
                 if pat == "_":
-                    if norm(rhs) != "default_memoize_register(Self::REGISTERS, reg)":
-                        die(w + " memoize_register: default arm %r" % rhs[:80])
+                    t["memo_tbl_of"] = self.memo_table_arg(norm(rhs), ctxname, w + " memoize_register: default arm")
                     default_seen = True
                     continue
                 mm = re.fullmatch(r"Some\(" + STR + r"\)", norm(rhs))
@@ -751,18 +758,30 @@ class Tr:
             t[key] = mm.group(1)
         return t
 
-    # ---------------------------------------------------------------- trait defaults (modelled by hand in C18/Model.v)
+    def memo_table_arg(self, text, ctxname, where):
+        """`default_memoize_register(<T>::REGISTERS, reg)` -> the CONTEXT_* type whose REGISTERS is searched (None = Self)"""
+        mm = re.fullmatch(r"default_memoize_register\((Self|md::(CONTEXT_\w+))::REGISTERS, reg\)", text)
+        if not mm:
+            die("%s is %r, expected default_memoize_register(<Self | md::CONTEXT_*>::REGISTERS, reg)" % (where, text[:80]))
+        return mm.group(2)          # None for Self
+
+    def names_src(self, text, where, allow_set):
+        """an arm of the `let regs = match valid {..}` in CpuContext::valid_registers ->
+           ("list", type or None for Self, lo, hi) | ("set",)"""
+        mm = re.fullmatch(r"CpuRegistersInner::Slice\(&?(Self|md::(CONTEXT_\w+))::REGISTERS(?:\[(\d*)\.\.(\d*)\])?\s?\.iter\(\)\)", text)
+        if mm:
+            return ("list", mm.group(2), int(mm.group(3)) if mm.group(3) else None, int(mm.group(4)) if mm.group(4) else None)
+        if allow_set and text == "CpuRegistersInner::Set(valid.iter())":
+            return ("set",)
+        die("%s: %r is neither CpuRegistersInner::Slice(<T>::REGISTERS[a..b].iter()) nor CpuRegistersInner::Set(valid.iter())" % (where, text[:100]))
+
+    # ---------------------------------------------------------------- trait defaults
+    # Bodies with a single well-typed shape stay pinned textually; everything with a choice in it is translated:
+    # the table memoize_register's default searches, the names each arm of valid_registers iterates, how many names an
+    # arm of CpuRegisters::next consumes and the value it pairs with the name.
     EXPECTED_DEFAULTS = {
-        "memoize_register": "default_memoize_register(Self::REGISTERS, reg)",
         "registers": "self.valid_registers(&MinidumpContextValidity::All)",
-        "valid_registers": "let regs = match valid { MinidumpContextValidity::All => CpuRegistersInner::Slice(Self::REGISTERS.iter()), "
-                           "MinidumpContextValidity::Some(valid) => CpuRegistersInner::Set(valid.iter()), }; CpuRegisters { regs, context: self, }",
     }
-    EXPECTED_FREE = {
-        "default_memoize_register": "let idx = registers.iter().position(|val| *val == reg)?; Some(registers[idx])",
-    }
-    EXPECTED_NEXT = ("let reg = match &mut self.regs { CpuRegistersInner::Slice(iter) => iter.next(), CpuRegistersInner::Set(iter) => iter.next(), }?; "
-                     "Some((reg, self.context.get_register_always(reg)))")
 
     def check_defaults(self):
         s = self.ctx_src
@@ -792,6 +811,17 @@ class Tr:
         if not mm:
             die("context.rs: default body of CpuContext::get_register has an unexpected shape: %r" % (norm(got[1]) if got else None))
         self.get_register_cond = self.accessor(mm.group(1), None, "context.rs trait CpuContext get_register condition", recv="self", want="bool")
+        got = fns.get("memoize_register")
+        self.default_memo_tbl_of = self.memo_table_arg(norm(got[1]) if got else "", None, "context.rs: default body of CpuContext::memoize_register")
+        got = fns.get("valid_registers")
+        mm = got and re.fullmatch(r"let regs = match valid \{ MinidumpContextValidity::All => (.+?), MinidumpContextValidity::Some\(valid\) => (.+?),? \}; "
+                                  r"CpuRegisters \{ regs, context: self,? \}", norm(got[1]))
+        if not mm:
+            die("context.rs: default body of CpuContext::valid_registers has an unexpected shape (C18/Model.v cpu_iter_init models "
+                "`let regs = match valid { All => <src>, Some(valid) => <src> }; CpuRegisters { regs, context: self }`): %r" % (norm(got[1]) if got else None))
+        wv = "context.rs trait CpuContext valid_registers"
+        self.iter_all = self.names_src(mm.group(1), wv + " (All arm)", False)
+        self.iter_some = self.names_src(mm.group(2), wv + " (Some arm)", True)
         for name, want in self.EXPECTED_DEFAULTS.items():
             got = fns.get(name)
             if not got or norm(got[1]) != want:
@@ -818,8 +848,15 @@ class Tr:
             die("context.rs: Iterator impl of CpuRegisters not found")
         b = s.find("{", m.end())
         fns = self.fns_of_block(s[b + 1:match_brace(s, b)], "CpuRegisters iterator")
-        if not fns.get("next") or norm(fns["next"][1]) != self.EXPECTED_NEXT:
-            die("context.rs: CpuRegisters::next changed: %r" % (norm(fns["next"][1]) if fns.get("next") else None))
+        mm = fns.get("next") and re.fullmatch(
+            r"let reg = match &mut self\.regs \{ CpuRegistersInner::Slice\(iter\) => iter\.(?:next\(\)|nth\((\d+)\)), "
+            r"CpuRegistersInner::Set\(iter\) => iter\.(?:next\(\)|nth\((\d+)\)),? \}\?; Some\(\(reg, (.+)\)\)", norm(fns["next"][1]))
+        if not mm:
+            die("context.rs: CpuRegisters::next has an unexpected shape (C18/Model.v cpu_iter_next models `let reg = match &mut self.regs "
+                "{ Slice(iter) => iter.next()|nth(K), Set(iter) => iter.next()|nth(K) }?; Some((reg, <value>))`): %r"
+                % (norm(fns["next"][1]) if fns.get("next") else None))
+        self.next_skip = (int(mm.group(1) or 0), int(mm.group(2) or 0))
+        self.next_val_text = mm.group(3)
 
     # ---------------------------------------------------------------- MinidumpContext dispatch
     def parse_dispatch(self, variants):
@@ -874,8 +911,10 @@ class Tr:
             die(w + "valid_registers: shape changed: %r ... %r" % (pre, post))
         for v, rhs in seen.items():
             out[v]["md_filter"] = self.accessor(rhs, variants[v], w + "valid_registers " + v, want="bool")
-        if norm(fns["registers"][1]) != "self.general_purpose_registers() .iter() .map(move |&reg| (reg, self.get_register_always(reg)))":
+        mm = re.fullmatch(r"self\.general_purpose_registers\(\) ?\.iter\(\) ?\.map\(move \|&reg\| \(reg, (.+)\)\)", norm(fns["registers"][1]))
+        if not mm:
             die(w + "registers: shape changed: %r" % norm(fns["registers"][1]))
+        self.md_regs_val = self.accessor(mm.group(1), None, w + "registers (the value paired with a name)", recv="self", want=64)
         seen, pre, post = arms_of("general_purpose_registers", r"self\.raw")
         if pre or post:
             die(w + "general_purpose_registers: code around the match")
@@ -892,8 +931,7 @@ class Tr:
         if pre != "fn get<T: CpuContext>(_: &T) -> usize { std::mem::size_of::<T::Register>() }" or post:
             die(w + "register_size: shape changed: %r" % pre)
         for v, rhs in seen.items():
-            if rhs != "get(ctx)":
-                die(w + "register_size %s: %r" % (v, rhs))
+            out[v]["md_size"] = self.accessor(rhs, None, w + "register_size " + v, recv="$size", want=64)
         return out
 
     # ---------------------------------------------------------------- all
@@ -946,8 +984,27 @@ class Tr:
             t["fmt"] = self.fmt
             if not t["custom_valid"]:
                 t["valid_default"], t["valid_all"] = self.default_valid
-            for key in ("md_get", "md_valid", "md_filter"):
+            for key in ("md_get", "md_valid", "md_filter", "md_size"):
                 t[key] = disp[v][key]
+            t["md_regs_val"] = self.md_regs_val
+
+            def regs_of(who, where):
+                if who is None:
+                    return tables[cname]["registers"]
+                if who not in tables:
+                    die("%s names md::%s::REGISTERS, which is not a CpuContext impl" % (where, who))
+                return tables[who]["registers"]
+            t["memo_tbl_of"] = tables[cname].get("memo_tbl_of", self.default_memo_tbl_of) or cname
+            t["memo_tbl"] = regs_of(tables[cname].get("memo_tbl_of", self.default_memo_tbl_of), "memoize_register of " + cname)
+
+            def src(x):
+                if x[0] == "set":
+                    return x
+                return ("list", regs_of(x[1], "valid_registers")[x[2]:x[3]], "%s::REGISTERS[%s..%s]" % (x[1] or cname, "" if x[2] is None else x[2], "" if x[3] is None else x[3]))
+            t["iter_all"], t["iter_some"] = src(self.iter_all), src(self.iter_some)
+            t["next_skip"] = self.next_skip
+            t["next_val"] = self.accessor(self.next_val_text.replace("self.context.", "ctx."), cname,
+                                          "context.rs CpuRegisters::next (the value paired with a name), instantiated at " + cname, recv="ctx", want=t["width"])
             offs = self.offsets(cname)
             t["fields"] = [(f, wl[0], -1 if wl[1] is None else wl[1], offs[f]) for f, wl in self.structs[cname].items() if wl is not None]
             t["gpr"] = tables[disp[v]["gpr_of"]]["registers"]
@@ -984,7 +1041,7 @@ def show_aexp(e):
     if k == "blit":
         return "true" if e[2] else "false"
     if k in ("var", "bvar"):
-        return {"$ga": "ctx.get_register_always(reg)", "$iv": "register_is_valid(reg, valid)",
+        return {"$ga": "ctx.get_register_always(reg)", "$mga": "self.get_register_always(reg)", "$size": "size_of::<Register>()", "$iv": "register_is_valid(reg, valid)",
                 "$contains": "which.contains(reg)", "$memo": "self.memoize_register(reg).is_some()"}.get(e[2], e[2])
     if k == "cast":
         return "(%s as u%d)" % (show_aexp(e[2]), e[1])
@@ -1081,6 +1138,8 @@ def emit(tables):
         o.append("  ct_set := %s;" % coq_list("(%s, %s)" % (coq_list(coq_str(p) for p in ps), coq_loc(l)) for ps, l, _ in t["set"]))
         o.append("  ct_set_val := %s;" % coq_list("(%s, %s)" % (coq_list(coq_str(p) for p in ps), coq_aexp(e)) for ps, _, e in t["set"]))
         o.append("  ct_memo := %s;" % coq_list("(%s, %s)" % (coq_list(coq_str(p) for p in ps), coq_str(c)) for ps, c in t["memo"]))
+        o.append("  (* memoize_register's default searches %s::REGISTERS *)" % t["memo_tbl_of"])
+        o.append("  ct_memo_tbl := %s;" % coq_list(coq_str(r) for r in t["memo_tbl"]))
         o.append("  ct_memo_cmp := %d;" % t["memo_cmp"])
         o.append("  ct_groups := %s;" % coq_list("(%s, %s)" % (coq_list(coq_str(p) for p in ps), coq_list(coq_str(a) for a in al)) for ps, al in t["groups"]))
         o.append("  (* register_is_valid: under All %s; under Some(which), names without an arm: %s (%s) *)"
@@ -1103,6 +1162,18 @@ def emit(tables):
         o.append("  ct_md_get := %s;" % coq_aexp(t["md_get"]))
         o.append("  ct_md_valid := %s;" % coq_bexp(t["md_valid"]))
         o.append("  ct_md_filter := %s;" % coq_bexp(t["md_filter"]))
+        def coq_src(x):
+            return "NSet" if x[0] == "set" else "(NList %s)" % coq_list(coq_str(r) for r in x[1])
+        o.append("  (* CpuContext::valid_registers iterates: under All %s; under Some(valid) %s *)"
+                 % tuple("the validity set" if x[0] == "set" else x[2] for x in (t["iter_all"], t["iter_some"])))
+        o.append("  ct_iter_all := %s;" % coq_src(t["iter_all"]))
+        o.append("  ct_iter_some := %s;" % coq_src(t["iter_some"]))
+        o.append("  (* CpuRegisters::next: Slice arm skips %d, Set arm skips %d, yields (reg, %s) *)" % (t["next_skip"][0], t["next_skip"][1], show_aexp(t["next_val"])))
+        o.append("  ct_next_slice := %d; ct_next_set := %d;" % t["next_skip"])
+        o.append("  ct_next_val := %s;" % coq_aexp(t["next_val"]))
+        o.append("  (* MinidumpContext::registers pairs a name with %s; register_size arm: %s *)" % (show_aexp(t["md_regs_val"]), show_aexp(t["md_size"])))
+        o.append("  ct_md_regs_val := %s;" % coq_aexp(t["md_regs_val"]))
+        o.append("  ct_md_size := %s;" % coq_aexp(t["md_size"]))
         o.append("  ct_fields := %s;" % coq_list("(%s, %d, %s, %d)" % (coq_str(f), w, coq_z(n), off) for f, w, n, off in t["fields"]))
         o.append("  ct_gpr := %s" % coq_list(coq_str(r) for r in t["gpr"]))
         o.append("|}.")
